@@ -32,7 +32,13 @@ META = {
     "template without top-level assignments). Shadowing: a top-level set that shadows a render argument or an "
     "environment global, followed by an include / import with context at top level or inside a block (the helper "
     "must see the assigned value). Extra helper shapes: from-import of h2's macro under an alias after the helper "
-    "defined a public macro of the original name / a public variable of the alias name. The helper prints a render variable, the "
+    "defined a public macro of the original name / a public variable of the alias name. Candidate lists: every list of "
+    "length 1..3 (thorough 1..4) over {missing name, existing names a/b, Template object} given to include [literal list "
+    "with the object in a variable] / include <variable> (each x ignore missing), Environment.select_template and "
+    "get_or_select_template; reference = the first entry that exists. Tuple assignments: helper with {% set n1, n2, .. = "
+    ".. %} for every ordered distinct tuple of length 1..3 (thorough 1..4) over {x, y, _p, _q} at top level / in an if / "
+    "in a for body (thorough: with), observed through Template.module, make_module and {% import %} (is defined + "
+    "value per alphabet name); reference = exactly the public names of top-level assignments. The helper prints a render variable, the "
     "includer's local, an environment global, the includer's template global and its own template global; compared: "
     "the whole rendered text / exception class, and for Template.module / make_module(vars) the exposed names "
     "(dir() minus the class's, hasattr over a probe list), str(module) and exported values.",
@@ -72,6 +78,8 @@ def norm(got):
 
 
 def _script(case):
+    if case[0] in ("sel", "tset"):
+        return gen_ctx.extra_script(case)
     src, main, data = gen_ctx.to_templates(case)
     g = gen_ctx.globals_for(case)
     f = gen_ctx._fields(case)
@@ -129,7 +137,12 @@ def classify(case, got, exp):
         if shared and f["target"] in ("lit", "lit-warm", "list", "var", "varlist", "obj", "fs"):
             # helper with template globals, run on a shared context, doing a default import of its own
             return SIG_KEYERROR
-    kind = fam if fam == "mod" else f"{fam}/{f['ctx'] or 'default'}/{f['placement']}"
+    if fam == "sel":
+        kind = f"sel/{f['via']}" + ("/ignore-missing" if f["ignore"] else "")
+    elif fam == "tset":
+        kind = f"tset/{f['obs']}/{f['where']}"
+    else:
+        kind = fam if fam == "mod" else f"{fam}/{f['ctx'] or 'default'}/{f['placement']}"
     if isinstance(got, tuple) and isinstance(exp, tuple):
         return f"C05/{kind}/exception/{got[1]}-instead-of-{exp[1]}"
     if isinstance(got, tuple):
@@ -139,6 +152,9 @@ def classify(case, got, exp):
     if fam == "mod":
         diff = sorted(k for k in set(got) | set(exp) if got.get(k) != exp.get(k))
         return f"C05/mod/{f['how']}/" + "+".join(diff)
+    if fam == "tset" and isinstance(got, dict) and isinstance(exp, dict):
+        diff = sorted(k for k in set(got) | set(exp) if got.get(k) != exp.get(k))
+        return f"C05/{kind}/" + "+".join(diff)
     return f"C05/{kind}/output"
 
 
@@ -155,6 +171,9 @@ def shard(arg) -> core.Part:
         exp = gen_ctx.expected(case)
         fam = case[0]
         p.count("cases_" + fam)
+        if fam in ("sel", "tset"):
+            for feat in gen_ctx.extra_features(case):
+                p.count(feat)
         if isinstance(got, tuple):
             p.count("raised_" + got[1])
             p.sig((fam, "exc", got[1]))
@@ -163,9 +182,10 @@ def shard(arg) -> core.Part:
         else:
             p.sig(got)
         if got != exp:
+            srcs = gen_ctx.extra_sources(case)[0] if fam in ("sel", "tset") else gen_ctx.to_templates(case)[0]
             p.violation(classify(case, got, exp), {
                 "msg": f"case={gen_ctx.tojson(case)}: got {got!r}, R-ctx expects {exp!r}; main="
-                       f"{gen_ctx.to_templates(case)[0].get('main')!r} h={gen_ctx.to_templates(case)[0]['h']!r}",
+                       f"{srcs.get('main')!r} h={srcs.get('h')!r}",
                 "case": gen_ctx.tojson(case), "got": repr(got), "expected": repr(exp),
                 "script": _script(case),
             })
@@ -179,7 +199,8 @@ def run(ctx: core.Ctx):
     bound = "quick" if ctx.quick else "thorough"
     ctx.rule = ("cases = gen_ctx.cases(bound): full product of the statement/target/placement/globals dimensions with "
                 "the helper shapes of the tier (module family: helper shape x own globals x {module, make_module} x "
-                "{get_template, from_string}); every case renders at least one template and is non-trivial; distinct = "
+                "{get_template, from_string}; candidate-list family: all lists up to the length bound x 4 entry points; "
+                "tuple-assignment family: all ordered name tuples x placement x observation); every case renders at least one template and is non-trivial; distinct = "
                 "distinct rendered text / (family, exception class) / module observation")
     ctx.assumptions += [
         "R-ctx follows docs/templates.rst (Include, Import, Import Context Behavior) and docs/api.rst (The Global Namespace)",
@@ -193,6 +214,16 @@ def run(ctx: core.Ctx):
     ]
     n = 64 if ctx.quick else 256
     ctx.pmap(shard, [(bound, k, n) for k in range(n)])
+    for key in ("sel_existing_name_before_object", "sel_object_before_existing_name", "sel_object_after_missing_name",
+                "tset_mixed_public_private_toplevel", "tset_all_private_tuple"):
+        if not ctx.counters.get(key):
+            raise core.HarnessError(f"family never reached its feature: {key}")
+    ctx.cov["candidate_lists"] = {"alphabet": list(gen_ctx.SEL_ALPHA[bound]), "max_len": gen_ctx.SEL_LEN[bound],
+                                  "via": list(gen_ctx.SEL_VIAS),
+                                  "existing_name_before_object": ctx.counters["sel_existing_name_before_object"]}
+    ctx.cov["tuple_assignments"] = {"alphabet": list(gen_ctx.TSET_ALPHA), "max_len": gen_ctx.TSET_LEN[bound],
+                                    "where": list(gen_ctx.TSET_WHERE[bound]), "observed_via": list(gen_ctx.TSET_OBS),
+                                    "mixed_public_private": ctx.counters["tset_mixed_public_private_toplevel"]}
     ctx.cov["bounds"] = {"tier": bound, "helper_shapes": len(gen_ctx.helper_shapes(bound)),
                          "placements": list(gen_ctx.PLACEMENTS), "include_targets": list(gen_ctx.INC_TARGETS),
                          "import_targets": list(gen_ctx.IMP_TARGETS), "cases": gen_ctx.count(bound)}
